@@ -13,7 +13,7 @@ META = {
              "depth >= 2 or it contains an extension type whose definition has a from-params bound"),
     "required": ["monitor:type_bound", "monitor:reused-type", "monitor:bound-after-empty-resolve", "monitor:wire-bound", "monitor:static-array-reject",
                  "monitor:static-array-accept", "monitor:join", "feature:from-params",
-                 "feature:bound-A", "feature:bound-C"],
+                 "feature:bound-A", "feature:bound-C", "feature:row-variable", "monitor:poly-function-bound"],
     "reach": ["hugr.tys:Sum.type_bound", "hugr.tys:ExtType.type_bound", "hugr.tys:ExtType._to_opaque"],
     "assumptions": [
         "at from-params indices only TypeTypeArg arguments are generated",
@@ -65,6 +65,14 @@ def check_type(ctx, d, stratum="type"):
     ctx.count("monitor:wire-bound", max(1, len(eb)))
     if ob != eb:
         ctx.disc(None, "wire-bound", "opaque bounds in pre-order", eb, ob, stratum=stratum, case=d)
+    if d[0] == "func":
+        # function types are copyable, polymorphic ones too
+        from hugr import tys as _t
+
+        ctx.count("monitor:poly-function-bound")
+        pb = _t.PolyFuncType([_t.TypeTypeParam(_t.TypeBound.Any), _t.BoundedNatParam()], t).type_bound().value
+        if pb != "C":
+            ctx.disc(None, "type_bound", "PolyFuncType", "C", pb, stratum=stratum, case=d)
     # a type that went through resolution against a registry that knows nothing is still the same type: its bound
     # (reported and written) is the declared / computed one
     from hugr.ext import ExtensionRegistry
@@ -194,8 +202,10 @@ def run(ctx):
     maxd = ctx.n(3, 5)
     for i in ctx.mine(ctx.n(40000, 1500000)):
         r = ctx.rng("type", i)
-        g = Gen(r)
+        g = Gen(r, allow_rowvar=bool(i % 2))      # (row variables inside rows: variables report their declared bound)
         d = g.ty(r.randint(0, maxd))
+        if "'rowvar'" in repr(d):
+            ctx.feat("feature:row-variable")
         fp = has_from(d)
         if fp:
             ctx.feat("feature:from-params")
